@@ -11,7 +11,8 @@
     the run, bound at the position of the occurrence.  For matrices that step
     is covered by the correspondence and oracle tests, not by a theorem. *)
 From PM Require Import Model.Prelude Model.Domain Model.Automaton Model.DomString Model.DomMatrix
-  Model.Traversal Spec.Occ Cert.WfCheck Cert.WinCheck Cert.CharCert Cert.ExampleAut Proofs.WinSound Proofs.StringRun.
+  Model.Traversal Spec.Occ Cert.WfCheck Cert.WinCheck Cert.CharCert Cert.ExampleAut Proofs.WinSound Proofs.StringRun
+  Model.DomPGKeys Model.DomPG Cert.PGCert Proofs.PGComplete.
 
 Theorem c02_cert_complete_partial :
   forall (K P : Type) (entails refutes : list (constraint K P) -> constraint K P -> bool)
@@ -47,6 +48,14 @@ Proof.
   - apply m_refutes_sound.
 Qed.
 
+(** port graphs: the valuation of a host [h] under a binding map [m] *)
+Theorem c02_portgraph_partial :
+  forall (A : automaton pgkey pgpred) (cs : list (list pgconstraint)) (present : list bool) i cp h m,
+    cert_complete pg_entails pg_refutes A cs present = true ->
+    nth_error cs i = Some cp -> nth_error present i = Some true ->
+    (forall d, In d cp -> pgval h m d = true) -> aaccepts (pgval h m) A (N.of_nat i).
+Proof. exact pg_cert_complete_sound. Qed.
+
 (** strings, the run itself: an automaton (as dumped from the implementation)
     that passes the three certificate checks reports, for every host [h], every
     occurrence [a] of every compiled non-empty pattern [p]. *)
@@ -81,3 +90,4 @@ Print Assumptions c02_cert_complete_partial.
 Print Assumptions c02_string_partial.
 Print Assumptions c02_string.
 Print Assumptions c02_matrix_partial.
+Print Assumptions c02_portgraph_partial.
